@@ -338,6 +338,9 @@ deriving Inhabited
 /-- syntactic class of a `#[default(expr)]` expression, as far as the expander looks -/
 inductive ExprClass where
   | strLit | path | underscore | other
+  /-- starts with a block-like expression and continues (`{ 1 } + 1`, `if c { a } else { b }.f()`): as the tail of a
+  function body it has to be parenthesized -/
+  | blockLead
 deriving Repr, BEq, DecidableEq, Inhabited
 
 structure DefaultArgs where
